@@ -292,8 +292,10 @@ impl<R> RingReader<R> {
             if self.ring.len() == RING_BUFFER_SIZE {
                 let evicted = self.ring.pop_front();
                 self.ring_start_offset = self.ring_start_offset.saturating_add(1);
-                // Track newlines: if we evict a newline, increment the start line
-                if evicted == Some(b'\n') {
+                // Track line breaks: if we evict one, increment the start line. A CR counts
+                // unless it is the first half of CRLF (then the LF after it will count).
+                let lone_cr = evicted == Some(b'\r') && self.ring.iter().next() != Some(b'\n');
+                if evicted == Some(b'\n') || lone_cr {
                     self.ring_start_line = self.ring_start_line.saturating_add(1);
                 }
             }
